@@ -71,6 +71,9 @@ type Contract struct {
 	Inline      bool
 	NoSchematic bool
 	NoE6Failure bool
+	// PropagatesErrors: every error a callee returns must be the error the
+	// function returns (directive `propagates errors`)
+	PropagatesErrors bool
 	NoSafety    bool
 	File        string
 	Lift        string
@@ -403,6 +406,10 @@ func (db *ContractDB) parseFile(prog *ssa.Program, pkg *packages.Package, f *ast
 				}
 				if cur != nil && strings.HasPrefix(rest, "noE6failure") {
 					cur.NoE6Failure = true
+				}
+			case "propagates":
+				if cur != nil && rest == "errors" {
+					cur.PropagatesErrors = true
 				}
 			case "safety":
 				if cur != nil && rest == "off" {
